@@ -101,8 +101,13 @@ theorem setSeqNum_out_keep (o : Option Int) : Sat KeepState (setSeqNum o none) :
   cases o <;> (unfold setSeqNum; dsimp only; repeat' sat_step)
   all_goals simp [KeepState, noRR_nil]
 
-theorem resendLoop_keep (env : Env) (sr : Msg → Bool) (rows : List Msg) (hwf : ∀ r ∈ rows, rowWf r)
-    (gfb gfe : Int) : Sat KeepState (resendLoop env sr rows gfb gfe) := by
+theorem persistOutboundRow_keep (n : Int) (row : Msg) : Sat KeepState (persistOutboundRow n row) := by
+  unfold persistOutboundRow
+  repeat' (first | sat_step | split)
+  all_goals simp [KeepState, noRR_nil]
+
+theorem resendLoop_keep (env : Env) (sr : Msg → Bool) (endNo : Int) (rows : List Msg)
+    (hwf : ∀ r ∈ rows, rowWf r) (gfb gfe : Int) : Sat KeepState (resendLoop env sr endNo rows gfb gfe) := by
   induction rows generalizing gfb gfe with
   | nil => unfold resendLoop; exact Sat.pure _
   | cons row rest ih =>
@@ -111,6 +116,7 @@ theorem resendLoop_keep (env : Env) (sr : Msg → Bool) (rows : List Msg) (hwf :
     unfold resendLoop
     repeat' (first
       | with_reducible exact ih' _ _
+      | with_reducible exact persistOutboundRow_keep _ _
       | with_reducible exact sendMsg_keep _ _ (gapFillMsg_ne _ _)
       | with_reducible exact sendMsg_keep _ _ (replay_ne hrow (by assumption) (by assumption) (by assumption))
       | with_reducible apply Sat.liftE_bind
@@ -134,7 +140,7 @@ theorem processResend_aw12 (env : Env) (sr : Msg → Bool) (m : Msg) (c : Conn)
   wp_simp
   repeat' (first
     | apply Holds.of_sat' (setSeqNum_out_keep _)
-    | apply Holds.of_sat' (resendLoop_keep env sr _ (recoverOut_wf hwf _ _) _ _)
+    | apply Holds.of_sat' (resendLoop_keep env sr _ _ (recoverOut_wf hwf _ _) _ _)
     | apply Holds.of_sat' (sendMsg_keep env _ (gapFillMsg_ne _ _))
     | intro _ | apply And.intro | wp_simp | split)
   all_goals simp_all [KeepState, noRR, st_RESENDREQ_AWAITING, st_NETWORK_CONN_ESTABLISHED]
